@@ -33,6 +33,13 @@ func runC10(c *Ctx) {
 	c.Rule("R10d", "binding: NewEntRevisions builds its ent connection from the Driver of the client it is given (so revision rows go through the transaction of a TxClient); Client.Tx opens the TxClient's driver on the begun transaction; RevisionsForClient/entRevisions pass their client through", 4)
 	runTxTypestate(c, "R10a")
 	execRules(c, false)
+	// the resume decision after a crash is Executor.Pending's: same rules as C09/C11
+	c.Rule("R10e", "Executor.Pending decides whether the last revision is complete from Applied and Total alone (a crash leaves Applied<Total with an empty Error): its conditions read no other Revision field than Applied, Total and Version", 4)
+	checkPendingReads(c, "R10e")
+	c.Rule("R10f", ruleTextPartialAnywhere, 1)
+	checkPartialAnywhere(c, "R10f")
+	c.Rule("R10g", ruleTextPendingLowerBound, 3)
+	checkPendingLowerBound(c, "R10g")
 
 	// R10d
 	if fi := c.Func("R10d", pCmdmig, "", "NewEntRevisions"); fi != nil {
